@@ -152,7 +152,17 @@ func main() {
 			if b.Race {
 				bin = *raceWorker
 			}
-			results[i] = runChild(bin, *prop, *tier, seed, i, len(plan), b, runDir, par)
+			// index of the batch among the batches of the same mode (exhaustive enumerations are partitioned per mode)
+			mi, mn := 0, 0
+			for j, o := range plan {
+				if o.Mode == b.Mode {
+					if j < i {
+						mi++
+					}
+					mn++
+				}
+			}
+			results[i] = runChild(bin, *prop, *tier, seed, i, len(plan), mi, mn, b, runDir, par)
 		}(i, b)
 	}
 	wg.Wait()
@@ -422,9 +432,9 @@ func raceKey(rep string) (string, bool) {
 	return strings.Join(fr, "|"), true
 }
 
-func runChild(bin, prop, tier string, seed uint64, i, n int, b Batch, dir string, par int) childResult {
+func runChild(bin, prop, tier string, seed uint64, i, n, mi, mn int, b Batch, dir string, par int) childResult {
 	out := filepath.Join(dir, fmt.Sprintf("b%03d.json", i))
-	args := []string{"-prop", prop, "-tier", tier, "-seed", fmt.Sprint(seed), "-batch", fmt.Sprint(i), "-nbatch", fmt.Sprint(n), "-mode", b.Mode, "-out", out}
+	args := []string{"-prop", prop, "-tier", tier, "-seed", fmt.Sprint(seed), "-batch", fmt.Sprint(i), "-nbatch", fmt.Sprint(n), "-mbatch", fmt.Sprint(mi), "-mnbatch", fmt.Sprint(mn), "-mode", b.Mode, "-out", out}
 	timeout := b.Timeout
 	if timeout == 0 {
 		timeout = 10 * time.Minute
